@@ -13,8 +13,8 @@ from . import core
 from . import monprog as mp
 
 PROP = "C07"
-LEAN_TARGETS = ["Asynkit.Props.C07"]
-PROPS_FILES = ["Asynkit/Props/C07.lean"]
+LEAN_TARGETS = ["Asynkit.Props.C07", "Asynkit.Lemmas.GenEqC07"]
+PROPS_FILES = ["Asynkit/Props/C07.lean", "Asynkit/Lemmas/GenEqC07.lean"]
 DRIVERS = ["Monitor"]
 TRUSTED = [
     "Lean 4.33 kernel; axioms ⊆ {propext, Classical.choice, Quot.sound} (audited per theorem each run)",
